@@ -192,3 +192,43 @@ impl CustomOperationBody for VPick {
         format!("VPick(late={})", self.late)
     }
 }
+
+/// scale * x + shift on integer arrays. Its `Hash` is lawful but partial: it covers `scale` only (equal values hash
+/// equally, as the contract demands; unequal values may collide), while `Eq` and the reported name cover both
+/// fields. Two parameterisations that differ in `shift` only have one hash - whatever the library keys by the hash
+/// alone must not confuse them.
+#[derive(Debug, Serialize, Deserialize, Eq, PartialEq)]
+pub struct VAffine {
+    pub scale: u64,
+    pub shift: u64,
+}
+
+impl std::hash::Hash for VAffine {
+    fn hash<H: std::hash::Hasher>(&self, state: &mut H) {
+        self.scale.hash(state);
+    }
+}
+
+#[typetag::serde]
+impl CustomOperationBody for VAffine {
+    fn instantiate(&self, context: Context, arguments_types: Vec<Type>) -> Result<Graph> {
+        if arguments_types.len() != 1 || !(arguments_types[0].is_array() || arguments_types[0].is_scalar()) {
+            return Err(runtime_error!("VAffine expects one array or scalar"));
+        }
+        let t = arguments_types[0].clone();
+        let st = t.get_scalar_type();
+        if st == BIT {
+            return Err(runtime_error!("VAffine expects integers"));
+        }
+        let g = context.create_graph()?;
+        let x = g.input(t)?;
+        let a = g.constant(scalar_type(st), Value::from_scalar(self.scale, st)?)?;
+        let b = g.constant(scalar_type(st), Value::from_scalar(self.shift, st)?)?;
+        x.multiply(a)?.add(b)?.set_as_output()?;
+        g.finalize()?;
+        Ok(g)
+    }
+    fn get_name(&self) -> String {
+        format!("VAffine(scale={},shift={})", self.scale, self.shift)
+    }
+}
